@@ -404,7 +404,14 @@ def judge(con: Contract, bindings, old_bindings, result, raised, fx, only=None):
             v = eval_clause(I, lam, env, native_old=old_bindings)
             out.append((full, bool(v), None))
         except Exception as e:
-            out.append((full, None, f"clause evaluation failed: {e!r}"))
+            from .interp import PyRaise as _PR
+
+            inner = e.exc if isinstance(e, _PR) else e
+            if isinstance(inner, (IndexError, KeyError)) and not use_old_as_state:
+                # the clause speaks about a record of the run that does not exist (e.g. "the second command")
+                out.append((full, False, f"clause refers to something absent from this run: {inner!r}"))
+            else:
+                out.append((full, None, f"clause evaluation failed: {e!r}"))
 
     if exit_kind == "raise":
         matched = [r for r in con.raises_ if isinstance(raised, r.exc_cls)]
